@@ -26,10 +26,10 @@ CLAIMS = {
              "encoding leaves x untouched, unknown keys tolerated with every known key kept, copy-with-changes returns a new value "
              "and leaves the original untouched are discharged on the real to_json/from_json/_set_fields/update source for all field "
              "values of the class's constructor domain (Capacities, CapacityHints, Labels, ReservationInfo, StructuralInfo, Location, "
-             "Flags, Tags, User/Measurement/LayoutData).",
+             "Flags, Tags, User/Measurement/LayoutData, Gateway, PathInfo/ERO, MaintenanceInfo, legacy type:value tuples).",
         note="json.dumps/json.loads assumed mutually inverse and canonical under sort_keys (assumed library contract); list-valued "
              "fields are opaque values for the classes that only store them; Labels and Tags list forms are bounded (length <= 2) and "
-             "counted as bounded, not proved. Gateway, PathInfo/ERO, MaintenanceInfo and TypedTuple codecs: see DESIGN.md status table.",
+             "counted as bounded, not proved. Gateway, PathInfo/ERO, MaintenanceInfo and the legacy type:value tuples (string values: all strings; integer values: known finding KF-C03-1) have their own contracts.",
         technique="contract-based deductive verification: sidecar contracts on the real codec functions, per-path VCs from the real AST, "
                   "z3 + cvc5; json as an assumed inverse pair; counter-models replayed on the real code",
         design_ref="DESIGN.md section 3 C03"),
@@ -107,8 +107,9 @@ CLAIMS = {
              "two services visited in either order give the same attribute sets; PDP request carries every attribute once in its "
              "category; lifetime arithmetic proved over unbounded integers; accounting counters increase by exactly the element's amount.",
         note="Prior attribute lists hold 0..2 symbolic entries (those obligations are counted as bounded). The walk over a whole "
-             "topology / serialized model (_collect_attributes_from_topo/_asm) is covered only through the per-element contracts it "
-             "calls once per node, service and facility (read, not mechanised).",
+             "topology object (_collect_attributes_from_topo) is executed on two slice programs built through the real API (bounded): "
+             "attributes equal a direct tally, and a fresh collector gives the same result whatever was collected earlier in the "
+             "process. Collection from the serialized model (_collect_attributes_from_asm) is not mechanised.",
         technique="contract-based deductive verification: per-call contribution + monotonicity postconditions on the real methods, "
                   "order independence as a two-run lemma harness, z3; replay on real code",
         design_ref="DESIGN.md section 3 C11"),
@@ -116,26 +117,31 @@ CLAIMS = {
         text="Delegations.to_json/from_json round trip (ids, formats, pool names, details), rejection of wrong-kind details, details on "
              "a reference, duplicate ids and mixed types, single definition per pool, and pools -> per-node delegations -> pools "
              "regrouping are checked on the real functions with symbolic ids, pool names, node ids and detail values.",
-        note="Bounded: containers of 1..2 delegations, pool families of <= 2 pools over 3 nodes. Known finding KF-C12-1 (a node needing "
+        note="Bounded: containers of 1..2 delegations (and two members added in one call), pool families of <= 2 pools over 3 nodes "
+             "plus three pools on disjoint node pairs with interleaving delegation ids. Known finding KF-C12-1 (a node needing "
              "two entries under one delegation id cannot be expressed) is recorded; one defect repaired (all-zero details).",
         technique="contracts on the real codec / regrouping functions checked by bounded symbolic execution (pyvc), z3; replay on real code",
         design_ref="DESIGN.md section 3 C12"),
     'C19': dict(
-        text="Every statement-issuing operation of Neo4jPropertyGraph (29 operations) is executed on its real source around a recording "
-             "stand-in for the driver; for every statement on every path: the text term (built by the real f-strings and "
+        text="Every statement-issuing operation of Neo4jPropertyGraph (29 operations), the import bookkeeping of Neo4jGraphImporter "
+             "(_import_graph, delete_graph, delete_all_graphs) and the combined-model queries of Neo4jCBMGraph (6 operations) are "
+             "executed on their real source around a recording stand-in for the driver, which may also refuse any one statement "
+             "(so handlers that issue clean-up statements are explored); for every statement on every path: the text term (built by the real f-strings and "
              "concatenations, kept symbolic) mentions no VALUE symbol -- data independence for all values, decided on the term; every "
              "$parameter named in the text is supplied; with sample identifiers substituted the text is balanced, has no template "
-             "residue and every variable it uses is bound. Seven operations splice values (known findings KF-C19-1..7, each with a "
+             "residue and every variable it uses is bound. Eight operations splice values (known findings KF-C19-1..8, each with a "
              "companion obligation that fails as soon as any OTHER value reaches the text); two malformed statements repaired.",
         note="Cypher well-formedness is a light tokenizer (balance, residue, bound variables), not a Cypher parser; arguments are "
              "classified as identifiers or values by the contract; behaviour against a real server is out of reach (no Neo4j here); "
-             "Neo4jCBMGraph / importer statements beyond delete are not yet covered.",
+             "at most one refused statement per call is explored; the APOC import itself and index creation read files and are not "
+             "executed.",
         technique="contract-based deductive verification: symbolic execution of the real statement-building code with string-provenance "
                   "terms (2-safety decided on the term), native two-value replay through a recording driver",
         design_ref="DESIGN.md section 3 C19"),
     'C07': dict(category='other',
         text="Programs of building calls (add/remove node, component, facility, service, sub-interface; connect/disconnect; "
-             "peer/unpeer; set/unset property; rejected calls in between) run on the real API; after EVERY call the statement's rule "
+             "peer/unpeer; set/unset property; rejected calls in between; attempts to create a second element of the same name in every "
+             "scope, in the orders a guard could miss) run on the real API; after EVERY call the statement's rule "
              "list (id/class/type/name from the pinned vocabularies, distinct ids, one owner per component, one parent per interface, "
              "links join interfaces only, one peer per service port, names unique in scope) is evaluated on the model; the read-only "
              "views are compared with the class listings; ViewOnlyDict offers no mutator; the rules file is pinned.",
@@ -146,15 +152,18 @@ CLAIMS = {
         text="Remove node / component / service, disconnect interface, remove sub-interface, unpeer: on canonical snapshots before and "
              "after, the deleted set is exactly owned(element) plus the peering artefacts (service-side port and link) and every other "
              "element, property and connection is unchanged; the handle the operation went through lists the same interfaces as a "
-             "freshly looked-up handle (two defects repaired).",
+             "freshly looked-up handle. Topology shapes: plain, bridged, with a GPU, with connected sub-interfaces on the removed "
+             "card, with a direct port-to-port link to another node (three defects repaired).",
         note=TOPO_NOTE,
         technique="exact-deletion and frame postconditions checked by bounded symbolic execution of the real API (pyvc), z3; replay",
         design_ref="DESIGN.md section 3 C08"),
     'C09': dict(category='other',
-        text="Ten rejected calls (duplicate node / component name, unknown component model, interface already connected at the first "
-             "or second position, L2PTP with a shared port at the second position, connect of a connected interface, link to an "
-             "interface of another model, oversized boot script among good properties, colliding derived ids) each leave the model "
-             "exactly as before (canonical snapshot equality on exceptional exit); two defects repaired.",
+        text="Sixteen rejected calls (duplicate node / component name, unknown component model, interface already connected at the "
+             "first or second position, L2PTP with a shared port at the second position, the same interface listed twice, a None "
+             "entry after a good interface, connect of a connected interface, link to an interface of another model or to something "
+             "that is not an interface, oversized boot script among good properties, colliding derived ids, facility / switch whose "
+             "port arguments or duplicate port names are rejected after the node exists) each leave the model exactly as before "
+             "(canonical snapshot equality on exceptional exit); five defects repaired.",
         note=TOPO_NOTE,
         technique="exceptional postconditions (raised => model unchanged) checked by bounded symbolic execution of the real API (pyvc)",
         design_ref="DESIGN.md section 3 C09"),
@@ -212,18 +221,21 @@ CLAIMS = {
         note=TOPO_NOTE + "One settable property at a time (not combinations); management_ip (ipaddress), maintenance_info, "
              "image_type alone, and the two delegation properties are not covered; the stored image reference is '<ref>,<type>' and "
              "the type is assumed to contain no comma; enum-valued properties take their first three members; JSON blob properties "
-             "one fixed document; element level: one representative value per listed property; link elements not covered.",
+             "one fixed document; element level: two representative values per listed property (set, overwrite, unset, with a "
+             "witness property that must survive); link elements not covered.",
         technique="contracts on the real conversion functions checked by bounded symbolic execution (per-property symbolic values, "
                   "z3 + cvc5 for string obligations), every path re-run on CPython",
         design_ref="DESIGN.md section 3 C02"),
     'C14': dict(category='other',
         text="The real merge_adm / unmerge_adm / _update_node_delegations / snapshot / rollback bodies run through the abstract graph "
              "interface on the in-memory shared store (combined-model handle backed by the NetworkX back end): two delegation models "
-             "sharing a stitching element are merged in both orders, unmerged, snapshotted and rolled back; union with the shared "
+             "sharing one or two stitching elements (the second model may delegate on the shared element and may be the only one "
+             "that connects the two shared elements) are merged in both orders, unmerged, merged again, snapshotted and rolled back; union with the shared "
              "element once, contributor sets, delegations keyed by the contributing model, order independence, sources untouched, "
              "unmerge = inverse of merge, rollback restores the snapshot (canonical comparison by NodeID).",
         note=BOUNDED_NOTE + "The typecast to Neo4jADMGraph inside merge_adm is substituted by the NetworkX ADM class (a handle on the "
-             "same graph id). Families of 3..4 models and longer interleavings are not explored.",
+             "same graph id). Families of 3..4 models and longer interleavings are not explored. Known finding KF-C14-1 (a connection "
+             "between two shared elements contributed only by the unmerged model survives unmerge).",
         technique="contracts on the real merge / unmerge functions checked by bounded symbolic execution over the bounded graph model",
         design_ref="DESIGN.md section 3 C14"),
     'C16': dict(
